@@ -1,7 +1,7 @@
 """C01 — Interest / Data encode-decode round trip (structure of the two-pass encoder and of make/parse). DESIGN §4 C01."""
 import ast
 
-from .common import ctx, returns, calls_in_ctx, reach_from_succ, site, srcs_text, caller_object_reaches, full_text
+from .common import ctx, returns, calls_in_ctx, reach_from_succ, site, srcs_text, caller_object_reaches, full_text, call_arg
 from .c08 import size_rules, stale_rule
 from ..flow import callee_attr
 from ..linexpr import lin, show, NotLinear
@@ -129,7 +129,7 @@ def run(R):
         cx = ctx(R, fq)
         inst = fq
         probs = []
-        enc = [n for (n, c) in calls_in_ctx(cx, attr='encode') if any(k.arg == 'markers' and ast.unparse(k.value) == 'markers' for k in c.keywords)]
+        enc = [n for (n, c) in calls_in_ctx(cx, attr='encode') if ast.unparse(call_arg(P, cx, c, 'markers', ast.Constant(None))) == 'markers']
         shc = calls_in_ctx(cx, pred=lambda c: ast.unparse(c.func) == 'shrink_length')
         gt = [t for t in cx.cfg.nodes if t.kind == 'test' and ast.unparse(t.ast) in ('shrink_size > 0', 'shrink_size', 'shrink_size != 0', 'shrink_size >= 1')]
         if len(enc) != 1 or len(shc) != 1 or len(gt) != 1:
